@@ -50,8 +50,16 @@ def _ints(xs, what):
     return out
 
 
+KNEE_VARIANT = (0.1, 0.01)     # an interaction diagram whose knee is off the diagonal (every shipped one is symmetric)
+
+
 def parse_material(name, variant="base"):
-    """independent reading of the XML (not through srlife.materials)"""
+    """independent reading of the XML (not through srlife.materials).  A name "X@knee" is material X with the
+    interaction knee replaced by KNEE_VARIANT (a user variant; not shipped)"""
+    if name.endswith("@knee"):
+        m = dict(parse_material(name[:-5], variant))
+        m.update(name=name, x2=KNEE_VARIANT[0], y2=KNEE_VARIANT[1])
+        return m
     node = ET.parse(os.path.join(DATA_DIR, name + ".xml")).getroot().find(variant)
     rup = node.find("averageRupture")
     curves = []
@@ -82,7 +90,13 @@ def real_material(name, variant="base"):
     from srlife import library
     key = (name, variant)
     if key not in _real_cache:
-        _real_cache[key] = library.load_damage(name, variant)
+        if name.endswith("@knee"):
+            import copy
+            m = copy.deepcopy(library.load_damage(name[:-5], variant))
+            m.data["cfinteraction"] = "%r %r" % KNEE_VARIANT
+            _real_cache[key] = m
+        else:
+            _real_cache[key] = library.load_damage(name, variant)
     return _real_cache[key]
 
 
@@ -234,6 +248,22 @@ def short_life_case(rng, material, mode):
     t = c["tubes"][0]
     t["times"] = np.asarray(t["times"], dtype=float) * f
     c["period"] = float(c["period"] * f)
+    return c
+
+
+def tail_case(rng, material, mode):
+    """a history that goes on after the last represented cycle boundary (a hold / shutdown tail that does not reach the
+    next multiple of the period): the tail belongs to no represented day"""
+    c = gen_case(rng, regime="crossing", material=material, mode=mode, days=rng.choice([1, 2, 3]), ntubes=1, period=24.0)
+    t = c["tubes"][0]
+    ntail = rng.randint(1, 3)
+    last = float(t["times"][-1])
+    extra = sorted(last + rng.uniform(0.5, 23.0) for _ in range(ntail))
+    t["times"] = np.concatenate([np.asarray(t["times"], dtype=float), np.array(extra)])
+    for k in ("stress", "strain"):
+        add = np.repeat(t[k][:, -1:], ntail, axis=1) * np.array([rng.uniform(1.0, 2.0) for _ in range(ntail)])[None, :, None, None]
+        t[k] = np.concatenate([t[k], add], axis=1)
+    t["temp"] = np.concatenate([t["temp"], np.repeat(t["temp"][-1:], ntail, axis=0)], axis=0)
     return c
 
 
